@@ -102,6 +102,9 @@ func genJSRequestArgs(r *RNG, forceGood bool) string {
 			copy(frameDevEUI[:], r.Bytes(8))
 		}
 	}
+	if !forceGood && r.Chance(1, 6) { // two faults at once: the wrong MIC is what has to be reported, whatever else is wrong after it
+		micOK = false
+	}
 	// the uplink frame
 	phy := lw.PHYPayload{MHDR: lw.MHDR{Major: lw.LoRaWANR1}}
 	if !rejoin {
